@@ -280,5 +280,5 @@ def main(tier, seed):
     # level-2 evaluation for all path lengths and pixel counts (checks/l2sym.py): direct form 'local frame placed in the global frame' of every element
     from checks import l2sym
 
-    l2sym.report_fails(rep, l2sym.run(rep, tier, fams=['A'], stride=None))
+    l2sym.report_fails(rep, l2sym.run(rep, tier, fams=['A'], stride=None, kinds=("element", "shape", "safety")))
     return rep.finish()
